@@ -18,7 +18,8 @@ SAFE_BUILTINS = {"len": len, "min": min, "max": max, "abs": abs, "int": int, "bo
                  "all": all, "sum": sum, "isinstance": None, "frozenset": frozenset, "dict": dict, "float": float}
 SAFE_METHODS = {"lower", "upper", "index", "get", "startswith", "endswith", "encode", "decode", "split", "strip",
                 "keys", "values", "items", "count", "join", "find", "hex", "bit_length", "copy", "issubset", "union",
-                "intersection", "add", "discard", "append", "pop", "remove", "extend", "update", "setdefault", "clear"}
+                "intersection", "add", "discard", "append", "pop", "remove", "extend", "update", "setdefault", "clear", "splitlines", "rstrip", "lstrip",
+                "replace", "isdigit", "partition", "rpartition", "rsplit", "insert"}
 
 
 class _SharedEnv(dict):
@@ -54,7 +55,17 @@ class Evaluator:
         if isinstance(e, ast.Constant):
             return e.value
         if isinstance(e, ast.Name):
-            return self.prog.const(self.module, e.id)
+            try:
+                return self.prog.const(self.module, e.id)
+            except Unknown:
+                if SAFE_BUILTINS.get(e.id) is not None and e.id not in self.module.assigns:
+                    return SAFE_BUILTINS[e.id]
+                r = self.prog.resolve_name(self.module, e.id)
+                if r and r[0] == "const":
+                    mm, nn = r[1]
+                    if nn in mm.assigns and nn.isupper():
+                        return Evaluator(self.prog, mm, None, {}, self.call_hook).ev(mm.assigns[nn])
+                raise
         if isinstance(e, ast.Attribute):
             # an object bound in the environment wins over class-level constants
             if isinstance(e.value, ast.Name) and e.value.id in self.env:
@@ -69,6 +80,11 @@ class Evaluator:
                     return base[e.attr]
                 if hasattr(base, "__dict__") and e.attr in vars(base):
                     return vars(base)[e.attr]
+                ga = getattr(self.call_hook, "getattr", None)
+                if ga is not None:
+                    r = ga(base, e.attr)
+                    if r is not NotImplemented:
+                        return r
                 raise Unknown(f"attribute {unparse(e)}")
         if isinstance(e, ast.UnaryOp):
             v = self.ev(e.operand)
@@ -129,7 +145,12 @@ class Evaluator:
                 if isinstance(v, ast.Constant):
                     out += str(v.value)
                 else:
-                    out += format(self.ev(v.value), self.ev(v.format_spec) if v.format_spec else "")
+                    val = self.ev(v.value)
+                    ts = getattr(self.call_hook, "to_str", None)
+                    if ts is not None and hasattr(val, "__cls__"):
+                        out += ts(val)
+                    else:
+                        out += format(val, self.ev(v.format_spec) if v.format_spec else "")
             return out
         if isinstance(e, ast.Await):
             return self.ev(e.value)
@@ -149,6 +170,8 @@ class Evaluator:
         if isinstance(t, ast.Name):
             self.env[t.id] = v
         elif isinstance(t, (ast.Tuple, ast.List)):
+            if isinstance(v, (list, tuple)) and len(v) != len(t.elts) and not any(isinstance(x, ast.Starred) for x in t.elts):
+                raise Raised("ValueError", t)
             for x, y in zip(t.elts, v):
                 self._bind(x, y)
         elif isinstance(t, ast.Subscript) and not isinstance(t.slice, ast.Slice):
